@@ -1,7 +1,7 @@
 import SLModel.Core.Filter
 /-!
-# Lemmas/Filter — the columns of a document with at most one carrier per nested path are
-faithful (`eval_sim`), used by `Props/C08`
+# Lemmas/Filter — the columns written for a document are faithful to its tree (`eval_sim`), used
+by `Props/C08`
 -/
 set_option linter.unusedSectionVars false
 set_option linter.unusedSimpArgs false
@@ -57,6 +57,11 @@ theorem getD_map_range {α : Type} (n i : Nat) (g : Nat → α) (d : α) :
   · rw [List.getD_eq_getElem?_getD, List.getElem?_eq_none (by simpa using Nat.le_of_not_lt h)]
     simp [h]
 
+theorem getD_map_fst {α β : Type} (l : List (α × β)) (j : Nat) (d : α × β) :
+    (l.map (·.1)).getD j d.1 = (l.getD j d).1 := by
+  simp only [List.getD_eq_getElem?_getD, List.getElem?_map]
+  cases l[j]? <;> rfl
+
 /-! ## schema lookups -/
 
 theorem find_name : ∀ {props : NProps σ} {x : σ} {p : NProp σ},
@@ -71,264 +76,171 @@ theorem find_name : ∀ {props : NProps σ} {x : σ} {p : NProp σ},
     · exact find_name h
 
 /-- the entry found under a name is the column built for the property found under that name -/
-theorem find_flattenProps (invs : List (Inv σ)) : ∀ (props : NProps σ) (x : σ),
-    (flattenProps props invs).find x =
+theorem find_flattenProps (objs : List (PObj σ)) : ∀ (props : NProps σ) (x : σ),
+    (flattenProps props objs).find x =
       match props.find x with
       | none => none
-      | some (.leaf l) => some (if l.fast then .leaf l.kind (leafObjs l invs) else .skip)
+      | some (.leaf l) =>
+        some (if l.fast then
+          .leaf l.kind (objs.map (fun po => collect l.kind ((po.2.get l.name).getD .null)))
+          else .skip)
       | some (.object (.mk nm _ ps)) =>
-        some (.child (.mk (lastCount (childInvs nm invs)) (parentsOf (childInvs nm invs))
-          (flattenProps ps (childInvs nm invs))))
+        some (.child (.mk (childObjsFrom nm 0 objs).length ((childObjsFrom nm 0 objs).map (·.1))
+          (flattenProps ps (childObjsFrom nm 0 objs))))
   | .nil, x => by simp [flattenProps, NEntries.find, NProps.find]
   | .cons (.leaf l) t, x => by
     simp only [flattenProps, NEntries.find, NProps.find, NProp.name]
     by_cases h : l.name = x
     · simp [h]
     · simp only [h, if_false]
-      exact find_flattenProps invs t x
+      exact find_flattenProps objs t x
   | .cons (.object (.mk nm nl ps)) t, x => by
     simp only [flattenProps, NEntries.find, NProps.find, NProp.name, Nested.name]
     by_cases h : nm = x
     · simp [h]
     · simp only [h, if_false]
-      exact find_flattenProps invs t x
+      exact find_flattenProps objs t x
 
-theorem singleProps_find : ∀ {props : NProps σ} {os : List (JO σ)} {r nm : σ} {nl : Bool}
-    {ps : NProps σ}, singleProps props os = true →
-    props.find r = some (.object (.mk nm nl ps)) →
-    (match carriersFrom nm 0 os with
-     | [] => true
-     | [inv] => singleProps ps (objsOf inv.2)
-     | _ => false) = true
-  | .nil, _, _, _, _, _, _, hf => by simp [NProps.find] at hf
-  | .cons (.leaf l) t, os, r, nm, nl, ps, hs, hf => by
-    simp only [singleProps] at hs
-    simp only [NProps.find, NProp.name] at hf
-    by_cases hq : l.name = r
-    · simp [hq] at hf
-    · simp only [hq, if_false] at hf
-      exact singleProps_find hs hf
-  | .cons (.object (.mk nm' nl' ps')) t, os, r, nm, nl, ps, hs, hf => by
-    simp only [singleProps, Bool.and_eq_true] at hs
-    simp only [NProps.find, NProp.name, Nested.name] at hf
-    by_cases hq : nm' = r
-    · subst hq
-      simp only [↓reduceIte, Option.some.injEq, NProp.object.injEq, Nested.mk.injEq] at hf
-      obtain ⟨h1, _, h3⟩ := hf
-      subst h1 h3
-      exact hs.1
-    · simp only [hq, if_false] at hf
-      exact singleProps_find hs.2 hf
+/-! ## the objects of a child path -/
 
-/-! ## one invocation -/
-
-theorem objsOf_of_isNull {v : J σ} (h : v.isNull = true) : objsOf v = [] := by
-  cases v <;> simp_all [J.isNull, objsOf]
-
-theorem lastCount_single (par : Option Nat) (v : J σ) :
-    lastCount [(par, v)] = (objsOf v).length := by
-  simp [lastCount]
-
-theorem maxCount_single (par : Option Nat) (v : J σ) :
-    maxCount [(par, v)] = (objsOf v).length := by
-  simp [maxCount]
-
-theorem parentsOf_single (k : Nat) (w : J σ) (j : Nat) (hj : j < (objsOf w).length) :
-    (parentsOf [(some k, w)]).getD j none = some k := by
-  cases w with
-  | arr a =>
-    simp only [objsOf, List.length_map] at hj
-    simp only [parentsOf, List.foldl_cons, List.foldl_nil, parentsStep, Option.getD_none,
-      List.length_replicate, Nat.sub_self, List.replicate_zero, List.append_nil,
-      Option.getD_some]
-    rw [List.getD_eq_getElem?_getD, List.getElem?_append_left (by simpa using hj)]
-    simp [hj]
-  | obj kv =>
-    simp only [objsOf, List.length_singleton] at hj
-    have : j = 0 := by omega
-    subst this
-    simp [parentsOf, parentsStep]
-  | null => simp [objsOf] at hj
-  | bool b => simp [objsOf] at hj
-  | num m e => simp [objsOf] at hj
-  | str s => simp [objsOf] at hj
-
-theorem leafObjs_single (l : Leaf σ) (par : Option Nat) (v : J σ) (i : Nat)
-    (hi : i < (objsOf v).length) :
-    (leafObjs l [(par, v)]).getD i [] =
-      collect l.kind ((((objsOf v).getD i .nil).get l.name).getD .null) := by
-  unfold leafObjs
-  rw [getD_map_range, maxCount_single]
-  simp only [hi, if_true, List.flatMap_cons, List.flatMap_nil, List.append_nil]
-  rw [List.getD_eq_getElem?_getD, List.getElem?_eq_getElem hi]
-  simp
-
-theorem leafObjs_single_one (l : Leaf σ) (par : Option Nat) (v : J σ)
-    (h1 : (objsOf v).length = 1) :
-    leafObjs l [(par, v)] = [(leafObjs l [(par, v)]).getD 0 []] := by
-  have : (leafObjs l [(par, v)]).length = 1 := by
-    simp [leafObjs, maxCount_single, h1]
-  match hl : leafObjs l [(par, v)], this with
-  | [x], _ => simp
-
-/-! ## which objects carry a child -/
-
-/-- object `o` has a non-null value under `r` -/
-def carries (o : JO σ) (r : σ) : Bool :=
+/-- some object of the value of `o` under `r` satisfies `K` -/
+def childAny (r : σ) (K : JO σ → Bool) (o : JO σ) : Bool :=
   match o.get r with
-  | some v => !v.isNull
+  | some v => (objsOf v).any K
   | none => false
 
-theorem carriers_nil {r : σ} : ∀ {b : Nat} {os : List (JO σ)},
-    carriersFrom r b os = [] → ∀ o, o ∈ os → carries o r = false
-  | _, [], _, o, ho => by simp at ho
-  | b, o' :: t, h, o, ho => by
-    simp only [carriersFrom, List.append_eq_nil_iff] at h
-    rcases List.mem_cons.mp ho with rfl | ho
-    · unfold carries
-      cases hg : o.get r with
-      | none => rfl
-      | some v =>
-        cases hn : v.isNull with
-        | true => simp [hn]
-        | false => simp [hg, hn] at h
-    · exact carriers_nil h.2 o ho
-
-theorem carriers_single {r : σ} : ∀ {b : Nat} {os : List (JO σ)} {inv : Inv σ},
-    carriersFrom r b os = [inv] →
-    ∃ k w, inv = (some (b + k), w) ∧ k < os.length ∧ (os.getD k .nil).get r = some w ∧
-      w.isNull = false ∧ ∀ i, i < os.length → i ≠ k → carries (os.getD i .nil) r = false
-  | _, [], _, h => by simp [carriersFrom] at h
-  | b, o :: t, inv, h => by
-    simp only [carriersFrom] at h
-    cases hg : o.get r with
-    | none =>
-      simp only [hg, List.nil_append] at h
-      obtain ⟨k, w, h1, h2, h3, h4, h5⟩ := carriers_single h
-      refine ⟨k + 1, w, by rw [h1]; congr 2; omega, by simpa using h2, by simpa using h3, h4, ?_⟩
-      intro i hi hne
-      cases i with
-      | zero => simp [carries, hg]
-      | succ i =>
-        simp only [List.getD_cons_succ]
-        exact h5 i (by simpa using hi) (by omega)
-    | some v =>
-      cases hn : v.isNull with
-      | true =>
-        simp only [hg, hn, if_true, List.nil_append] at h
-        obtain ⟨k, w, h1, h2, h3, h4, h5⟩ := carriers_single h
-        refine ⟨k + 1, w, by rw [h1]; congr 2; omega, by simpa using h2, by simpa using h3, h4, ?_⟩
-        intro i hi hne
-        cases i with
-        | zero => simp [carries, hg, hn]
-        | succ i =>
-          simp only [List.getD_cons_succ]
-          exact h5 i (by simpa using hi) (by omega)
-      | false =>
-        simp only [hg, hn, Bool.false_eq_true, if_false, List.cons_append, List.nil_append,
-          List.cons.injEq] at h
-        refine ⟨0, v, by rw [← h.1]; rfl, by simp, by simpa using hg, hn, ?_⟩
-        intro i hi hne
-        cases i with
-        | zero => exact absurd rfl hne
-        | succ i =>
-          simp only [List.getD_cons_succ]
-          have hi' : i < t.length := by simpa using hi
-          have : t.getD i .nil ∈ t := by
-            rw [List.getD_eq_getElem?_getD, List.getElem?_eq_getElem hi']
-            simp
-          exact carriers_nil h.2 _ this
-
-theorem Spec.bind_not_carrier (props : NProps σ) (o : JO σ) (r : σ)
-    (ks : NProps σ → JO σ → Bool) (h : carries o r = false) : Spec.bind props o r ks = false := by
-  unfold Spec.bind
-  unfold carries at h
-  cases hf : props.find r with
+theorem Spec.bind_eq (props : NProps σ) (kv : JO σ) (r : σ) (ks : NProps σ → JO σ → Bool) :
+    Spec.bind props kv r ks =
+      match props.find r with
+      | some (.object n) => childAny r (ks n.props) kv
+      | _ => false := by
+  unfold Spec.bind childAny
+  cases props.find r with
   | none => rfl
   | some p =>
     cases p with
     | leaf l => rfl
-    | object n =>
-      cases hg : o.get r with
-      | none => rfl
+    | object n => cases kv.get r <;> rfl
+
+/-- every child object points to a parent index inside the range of its parents -/
+theorem childObjs_parent {r : σ} : ∀ {objs : List (PObj σ)} {b : Nat} {p : PObj σ},
+    p ∈ childObjsFrom r b objs → ∃ i, p.1 = some i ∧ b ≤ i ∧ i < b + objs.length
+  | [], _, _, h => by simp [childObjsFrom] at h
+  | po :: t, b, p, h => by
+    simp only [childObjsFrom, List.mem_append] at h
+    rcases h with h | h
+    · cases hg : po.2.get r with
+      | none => simp [hg] at h
       | some v =>
-        simp only [hg, Bool.not_eq_eq_eq_not, Bool.not_false] at h
-        simp [objsOf_of_isNull h]
+        simp only [hg, List.mem_map] at h
+        obtain ⟨o, _, rfl⟩ := h
+        exact ⟨b, rfl, Nat.le_refl _, by simp⟩
+    · obtain ⟨i, h1, h2, h3⟩ := childObjs_parent h
+      exact ⟨i, h1, by omega, by simp only [List.length_cons]; omega⟩
+
+/-- the child objects, whatever their parent -/
+theorem any_childObjs (r : σ) (K : JO σ → Bool) : ∀ (objs : List (PObj σ)) (b : Nat),
+    (childObjsFrom r b objs).any (fun p => K p.2) = objs.any (fun po => childAny r K po.2)
+  | [], _ => rfl
+  | po :: t, b => by
+    simp only [childObjsFrom, List.any_append, List.any_cons, any_childObjs r K t (b + 1)]
+    congr 1
+    unfold childAny
+    cases po.2.get r with
+    | none => rfl
+    | some v => simp [List.any_map, Function.comp_def]
+
+/-- the child objects whose parent index is that of the `k`-th parent object are exactly the
+objects of that parent's value -/
+theorem any_childObjs_parent (r : σ) (K : JO σ → Bool) : ∀ (objs : List (PObj σ)) (b k : Nat),
+    k < objs.length →
+    (childObjsFrom r b objs).any (fun p => p.1 == some (b + k) && K p.2) =
+      childAny r K (objs.getD k (none, .nil)).2
+  | [], _, _, h => by simp at h
+  | po :: t, b, k, hk => by
+    simp only [childObjsFrom, List.any_append]
+    cases k with
+    | zero =>
+      have h2 : (childObjsFrom r (b + 1) t).any (fun p => p.1 == some (b + 0) && K p.2) = false := by
+        rw [List.any_eq_false]
+        intro p hp
+        obtain ⟨i, h1, h2, _⟩ := childObjs_parent hp
+        have : i ≠ b := by omega
+        simp [h1, this]
+      rw [h2, Bool.or_false]
+      simp only [List.getD_cons_zero]
+      unfold childAny
+      cases po.2.get r with
+      | none => rfl
+      | some v => simp [List.any_map, Function.comp_def]
+    | succ k =>
+      have ih := any_childObjs_parent r K t (b + 1) k (by simpa using hk)
+      have e : b + 1 + k = b + (k + 1) := by omega
+      rw [e] at ih
+      simp only [List.getD_cons_succ]
+      rw [← ih]
+      have hb : (b == b + (k + 1)) = false := by
+        rw [beq_eq_false_iff_ne]; omega
+      cases po.2.get r with
+      | none => simp
+      | some v => simp [List.any_map, Function.comp_def, hb]
 
 /-! ## the simulation -/
 
-/-- the object loop of the code over the columns of a single invocation finds exactly the objects
-of the child value of the bound object -/
-theorem bind_sim (props : NProps σ) (par : Option Nat) (v : J σ) (i : Nat) (idx : Option Nat)
-    (r : σ) (kc : NEntries σ → Nat → Bool) (ks : NProps σ → JO σ → Bool)
-    (hs : singleProps props (objsOf v) = true) (hi : i < (objsOf v).length)
-    (hidx : idx = some i ∨ (idx = none ∧ (objsOf v).length = 1))
-    (hk : ∀ (nm : σ) (nl : Bool) (ps : NProps σ) (k : Nat) (w : J σ) (j : Nat),
-        props.find r = some (.object (.mk nm nl ps)) → singleProps ps (objsOf w) = true →
-        j < (objsOf w).length →
-        kc (flattenProps ps [(some k, w)]) j = ks ps ((objsOf w).getD j .nil)) :
-    Col.bind (flattenProps props [(par, v)]) idx r kc =
-      Spec.bind props ((objsOf v).getD i .nil) r ks := by
+/-- the object loop of the code over the columns finds exactly the objects of the child value
+of the bound object -/
+theorem bind_sim (props : NProps σ) (objs : List (PObj σ)) (g : Nat) (r : σ)
+    (kc : NEntries σ → Nat → Bool) (ks : NProps σ → JO σ → Bool) (hg : g < objs.length)
+    (hk : ∀ (nm : σ) (nl : Bool) (ps : NProps σ) (j : Nat),
+        props.find r = some (.object (.mk nm nl ps)) → j < (childObjsFrom nm 0 objs).length →
+        kc (flattenProps ps (childObjsFrom nm 0 objs)) j =
+          ks ps ((childObjsFrom nm 0 objs).getD j (none, .nil)).2) :
+    Col.bind (flattenProps props objs) (some g) r kc =
+      Spec.bind props (objs.getD g (none, .nil)).2 r ks := by
   unfold Col.bind
-  rw [find_flattenProps]
+  rw [find_flattenProps, Spec.bind_eq]
   cases hf : props.find r with
-  | none => simp [Spec.bind, hf]
+  | none => rfl
   | some p =>
     cases p with
-    | leaf l =>
-      cases hfast : l.fast <;> simp [Spec.bind, hf, hfast]
+    | leaf l => cases hfast : l.fast <;> simp [hfast]
     | object c =>
       obtain ⟨nm, nl, ps⟩ := c
       have hnm : nm = r := by simpa [NProp.name, Nested.name] using find_name hf
-      have hsingle := singleProps_find hs hf
-      have hci : childInvs nm [(par, v)] = carriersFrom nm 0 (objsOf v) := by
-        simp [childInvs]
-      simp only [hci]
-      cases hc : carriersFrom nm 0 (objsOf v) with
-      | nil =>
-        have hnc := carriers_nil hc ((objsOf v).getD i .nil) (by
-          rw [List.getD_eq_getElem?_getD, List.getElem?_eq_getElem hi]; simp)
-        rw [hnm] at hnc
-        rw [Spec.bind_not_carrier props _ r ks hnc]
-        simp [lastCount]
-      | cons inv rest =>
-        cases rest with
-        | cons x y => simp [hc] at hsingle
-        | nil =>
-          simp only [hc] at hsingle
-          obtain ⟨k, w, hinv, hklt, hget, hwn, hothers⟩ := carriers_single hc
-          subst hinv
-          simp only [Nat.zero_add] at hsingle ⊢
-          simp only [lastCount_single]
-          by_cases hki : k = i
-          · subst hki
-            have hspec : Spec.bind props ((objsOf v).getD k .nil) r ks = (objsOf w).any (ks ps) := by
-              unfold Spec.bind
-              rw [hf]
-              simp only [Nested.props]
-              rw [← hnm, hget]
-            rw [hspec, ← any_range_getD .nil (ks ps) (objsOf w)]
-            apply any_range_congr
-            intro j hj
-            rw [hk nm nl ps k w j hf hsingle hj]
-            rcases hidx with h | ⟨h, _⟩
-            · subst h
-              show ((parentsOf [(some k, w)]).getD j none == some k && _) = _
-              rw [parentsOf_single k w j hj]
-              simp
-            · subst h
-              simp
-          · have hnc := hothers i hi (Ne.symm hki)
-            rw [hnm] at hnc
-            rw [Spec.bind_not_carrier props _ r ks hnc]
-            rcases hidx with h | ⟨_, h1⟩
-            · subst h
-              apply any_range_false
-              intro j hj
-              show ((parentsOf [(some k, w)]).getD j none == some i && _) = false
-              rw [parentsOf_single k w j hj]
-              simp [hki]
-            · omega
+      simp only [Nested.props]
+      have h := any_childObjs_parent nm (ks ps) objs 0 g hg
+      simp only [Nat.zero_add] at h
+      rw [← hnm, ← h, ← any_range_getD (none, .nil) _ (childObjsFrom nm 0 objs)]
+      apply any_range_congr
+      intro j hj
+      rw [hk nm nl ps j hf hj]
+      show ((List.map (·.1) (childObjsFrom nm 0 objs)).getD j none == some g && _) = _
+      rw [show (none : Option Nat) = ((none, JO.nil) : PObj σ).1 from rfl, getD_map_fst]
+
+/-- at the top level (one object, no object index) the loop does not look at the parent column;
+all child objects belong to the one object anyway -/
+theorem bind_none_eq (props : NProps σ) (po : PObj σ) (r : σ) (kc : NEntries σ → Nat → Bool) :
+    Col.bind (flattenProps props [po]) none r kc =
+      Col.bind (flattenProps props [po]) (some 0) r kc := by
+  unfold Col.bind
+  rw [find_flattenProps]
+  cases hf : props.find r with
+  | none => rfl
+  | some p =>
+    cases p with
+    | leaf l => cases hfast : l.fast <;> simp [hfast]
+    | object c =>
+      obtain ⟨nm, nl, ps⟩ := c
+      simp only
+      apply any_range_congr
+      intro j hj
+      have hmem : (childObjsFrom nm 0 [po]).getD j (none, .nil) ∈ childObjsFrom nm 0 [po] := by
+        rw [List.getD_eq_getElem?_getD, List.getElem?_eq_getElem hj]
+        simp
+      obtain ⟨i, h1, _, h3⟩ := childObjs_parent hmem
+      have hi : i = 0 := by simpa using h3
+      rw [show (none : Option Nat) = ((none, JO.nil) : PObj σ).1 from rfl, getD_map_fst, h1, hi]
+      simp
 
 theorem allPlain_mem : ∀ {fs : List (Filter σ)} {g : Filter σ},
     allPlainList fs = true → g ∈ fs → g.allPlain = true
@@ -357,11 +269,10 @@ theorem allPlain_inners (r : σ) : ∀ {fs : List (Filter σ)},
     | or gs => simpa [inners] using ih
     | not g => simpa [inners] using ih
 
-theorem leaf_sim (fold : σ → σ) (c : Clause σ) (props : NProps σ) (par : Option Nat) (v : J σ)
-    (i : Nat) (idx : Option Nat) (a : σ) (hi : i < (objsOf v).length)
-    (hidx : idx = some i ∨ (idx = none ∧ (objsOf v).length = 1)) :
-    Col.leafPasses fold c idx (flattenProps props [(par, v)]) [a] =
-      Spec.leafPasses fold c props ((objsOf v).getD i .nil) [a] := by
+theorem leaf_sim (fold : σ → σ) (c : Clause σ) (props : NProps σ) (objs : List (PObj σ))
+    (g : Nat) (a : σ) (hg : g < objs.length) :
+    Col.leafPasses fold c (some g) (flattenProps props objs) [a] =
+      Spec.leafPasses fold c props (objs.getD g (none, .nil)).2 [a] := by
   simp only [Col.leafPasses, Spec.leafPasses]
   rw [find_flattenProps]
   cases hf : props.find a with
@@ -377,62 +288,54 @@ theorem leaf_sim (fold : σ → σ) (c : Clause σ) (props : NProps σ) (par : O
       | false => simp [hfast]
       | true =>
         simp only [hfast, if_true, Bool.true_and]
-        rcases hidx with h | ⟨h, h1⟩
-        · subst h
-          simp only [leafObjs_single l par v i hi, hname]
-        · subst h
-          have i0 : i = 0 := by omega
-          subst i0
-          rw [leafObjs_single_one l par v h1]
-          simp only [List.any_cons, List.any_nil, Bool.or_false]
-          rw [leafObjs_single l par v 0 hi, hname]
+        rw [List.getD_eq_getElem?_getD, List.getElem?_map, List.getElem?_eq_getElem hg]
+        rw [List.getD_eq_getElem?_getD, List.getElem?_eq_getElem hg]
+        simp [hname]
 
-/-- **the simulation**: over the columns of a single invocation whose objects have at most one
-carrier per child path (recursively), the code's evaluation at object `i` equals the documented
-semantics on the `i`-th object — for filters whose leaf clauses name plain fields -/
-theorem eval_sim (fold : σ → σ) : ∀ (fuel : Nat) (props : NProps σ) (par : Option Nat)
-    (v : J σ) (i : Nat) (idx : Option Nat) (f : Filter σ),
-    singleProps props (objsOf v) = true → i < (objsOf v).length →
-    (idx = some i ∨ (idx = none ∧ (objsOf v).length = 1)) → f.allPlain = true →
-    Col.eval fold fuel (flattenProps props [(par, v)]) idx f =
-      Spec.eval fold fuel props ((objsOf v).getD i .nil) f
-  | 0, _, _, _, _, _, _, _, _, _, _ => by simp [Col.eval, Spec.eval]
-  | n + 1, props, par, v, i, idx, f, hs, hi, hidx, hp => by
+/-- **the simulation**: over the columns written for the objects `objs` of a nested path, the
+code's evaluation at object index `g` equals the documented semantics on the `g`-th object — for
+every list of objects (any number of parents) and every filter whose leaf clauses name plain
+fields -/
+theorem eval_sim (fold : σ → σ) : ∀ (fuel : Nat) (props : NProps σ) (objs : List (PObj σ))
+    (g : Nat) (f : Filter σ), g < objs.length → f.allPlain = true →
+    Col.eval fold fuel (flattenProps props objs) (some g) f =
+      Spec.eval fold fuel props (objs.getD g (none, .nil)).2 f
+  | 0, _, _, _, _, _, _ => by simp [Col.eval, Spec.eval]
+  | n + 1, props, objs, g, f, hg, hp => by
     cases f with
     | leaf path c =>
       simp only [Filter.allPlain, beq_iff_eq] at hp
       match path, hp with
       | [a], _ =>
         simp only [Col.eval, Spec.eval]
-        exact leaf_sim fold c props par v i idx a hi hidx
-    | nested r g =>
+        exact leaf_sim fold c props objs g a hg
+    | nested r q =>
       simp only [Col.eval, Spec.eval]
-      apply bind_sim props par v i idx r _ _ hs hi hidx
-      intro nm nl ps k w j _ hs' hj
-      exact eval_sim fold n ps (some k) w j (some j) g hs' hj (Or.inl rfl)
+      apply bind_sim props objs g r _ _ hg
+      intro nm nl ps j _ hj
+      exact eval_sim fold n ps (childObjsFrom nm 0 objs) j q hj
         (by simpa [Filter.allPlain] using hp)
     | and fs =>
       simp only [Filter.allPlain] at hp
       simp only [Col.eval, Spec.eval]
       congr 1
       · apply all_congr'
-        intro g hg
-        exact eval_sim fold n props par v i idx g hs hi hidx
-          (allPlain_mem hp (List.mem_filter.mp hg).1)
+        intro q hq
+        exact eval_sim fold n props objs g q hg (allPlain_mem hp (List.mem_filter.mp hq).1)
       · apply all_congr'
         intro r _
-        apply bind_sim props par v i idx r _ _ hs hi hidx
-        intro nm nl ps k w j _ hs' hj
-        exact eval_sim fold n ps (some k) w j (some j) (.and (inners r fs)) hs' hj (Or.inl rfl)
+        apply bind_sim props objs g r _ _ hg
+        intro nm nl ps j _ hj
+        exact eval_sim fold n ps (childObjsFrom nm 0 objs) j (.and (inners r fs)) hj
           (by simpa [Filter.allPlain] using allPlain_inners r hp)
     | or fs =>
       simp only [Filter.allPlain] at hp
       simp only [Col.eval, Spec.eval]
       apply any_congr'
-      intro g hg
-      exact eval_sim fold n props par v i idx g hs hi hidx (allPlain_mem hp hg)
-    | not g =>
+      intro q hq
+      exact eval_sim fold n props objs g q hg (allPlain_mem hp hq)
+    | not q =>
       simp only [Col.eval, Spec.eval]
-      rw [eval_sim fold n props par v i idx g hs hi hidx (by simpa [Filter.allPlain] using hp)]
+      rw [eval_sim fold n props objs g q hg (by simpa [Filter.allPlain] using hp)]
 
 end SL.Filter
